@@ -153,6 +153,13 @@ EDITS = [
     ('fitting.py', '        matrix_a[i][span-degree:span+1] = helpers.basis_function(degree, knotvector, span, params[i])', '        matrix_a[i][span-degree:span+1] = helpers.basis_function(degree, knotvector, span, params[0])', ['fitting._build_coeff_matrix'], 'caught'),
     ('fitting.py', '        span = helpers.find_span_linear(degree, knotvector, num_points, params[i])\n        matrix_a[i][span-degree:span+1] = helpers.basis_function(degree, knotvector, span, params[i])', '        span = helpers.find_span_linear(degree, knotvector, num_points, params[i - 1])\n        matrix_a[i][span-degree:span+1] = helpers.basis_function(degree, knotvector, span, params[i])', ['fitting._build_coeff_matrix'], 'caught'),
     ('fitting.py', '        matrix_a[i][span-degree:span+1] = helpers.basis_function(degree, knotvector, span, params[i])', '        first = span - degree\n        vals = helpers.basis_function(degree, knotvector, span, params[i])\n        matrix_a[i][first:first + degree + 1] = vals', ['fitting._build_coeff_matrix'], 'quiet'),
+    # ---- compatibility.flip_ctrlpts2d / flip_ctrlpts / flip_ctrlpts_u (layout converters)
+    ('compatibility.py', '            new_ctrlpts2d[i][j] = [float(c) for c in ctrlpts2d[j][i]]', '            new_ctrlpts2d[i][j] = [float(c) for c in ctrlpts2d[i][j]]', ['compatibility.flip_ctrlpts2d'], 'caught'),
+    ('compatibility.py', '            new_ctrlpts2d[i][j] = [float(c) for c in ctrlpts2d[j][i]]', '            new_ctrlpts2d[j][i] = [float(c) for c in ctrlpts2d[j][i]]', ['compatibility.flip_ctrlpts2d'], 'caught'),
+    ('compatibility.py', '        for j in range(size_u):\n            new_ctrlpts2d[i][j] = [float(c) for c in ctrlpts2d[j][i]]', '        for j in range(1, size_u):\n            new_ctrlpts2d[i][j] = [float(c) for c in ctrlpts2d[j][i]]', ['compatibility.flip_ctrlpts2d'], 'caught'),
+    ('compatibility.py', '            new_ctrlpts2d[i][j] = [float(c) for c in ctrlpts2d[j][i]]', '            pt = ctrlpts2d[j][i]\n            new_ctrlpts2d[i][j] = [float(c) for c in pt]', ['compatibility.flip_ctrlpts2d'], 'quiet'),
+    ('compatibility.py', 'ctrlpts[i + (j * size_u)]', 'ctrlpts[i + (j * size_v)]', ['compatibility.flip_ctrlpts_u'], 'caught'),
+    ('compatibility.py', 'ctrlpts[i + (j * size_v)]', 'ctrlpts[i + (j * size_u)]', ['compatibility.flip_ctrlpts'], 'caught'),
     # ---- _linalg.doolittle (breaking, then harmless)
     ('_linalg.py', 'matrix_u[i][k] = float(matrix_a[i][k] - sum([matrix_l[i][j] * matrix_u[j][k] for j in range(0, i)]))',
      'matrix_u[i][k] = float(matrix_a[i][k] - sum([matrix_l[i][j] * matrix_u[j][k] for j in range(1, i)]))', ['_linalg.doolittle'], 'caught'),
